@@ -385,10 +385,10 @@ namespace avel {
         [[nodiscard]]
         AVEL_FINL friend mask operator!=(Vector lhs, Vector rhs) {
             #if defined(AVEL_AVX512VL) || defined(AVEL_AVX10_1)
-            return mask{_mm256_cmp_pd_mask(lhs.content, rhs.content, _CMP_NEQ_OS)};
+            return mask{_mm256_cmp_pd_mask(lhs.content, rhs.content, _CMP_NEQ_UQ)};
 
             #elif defined(AVEL_AVX2)
-            return mask{_mm256_cmp_pd(lhs.content, rhs.content, _CMP_NEQ_OS)};
+            return mask{_mm256_cmp_pd(lhs.content, rhs.content, _CMP_NEQ_UQ)};
 
             #endif
         }
